@@ -16,6 +16,7 @@ mod ts;
 mod cred;
 mod did;
 mod iota;
+mod malformed;
 
 // the Kani harness bodies, compiled natively (cfg(not(kani))) and fed with CBMC's concrete values
 #[macro_use]
@@ -89,6 +90,7 @@ fn main() {
     "iota_did" => iota::iota_did(&cex),
     "did_syntax" => did::syntax(&cex),
     "did_probe" => did::probe(&cex),
+    "malformed_inputs" => malformed::malformed(&cex),
     "credential_validation" => cred::credential_validation(&cex),
     "presentation_validation" => cred::presentation_validation(&cex),
     "claims" => cred::claims(&cex),
@@ -148,6 +150,7 @@ fn panic_sweep() -> Result<String, String> {
     ("document_ops", docops::document_ops),
     ("storage_faults", storage::faults),
     ("statuslist_oneway", statuslist::oneway),
+    ("malformed_inputs", malformed::malformed),
   ];
   let mut found = Vec::new();
   for (name, f) in all {
